@@ -431,7 +431,11 @@ def queries(rng, spec, b, D, t, big):
                 return A('self')
             return dom_sexp(r, t)
         qs.append(('sub', 'C13 sub %s %s' % (L, dumps(ns)), sub))
-    if d == 2 and multi:
+    sides = [(x[y]['pid'], x[y]['axis'], x[y]['ext']) for x in {json.dumps(c, sort_keys=True): c for c in spec['conns']}.values() for y in 'mp']
+    # a face declared in two different connections has no geometry, and get_shared_corners then walks its
+    # minus->plus dictionary (which kept only one of the two) from an arbitrary set.pop() start: the groups depend on
+    # the iteration order of a set of objects hashed by address, so they are not compared
+    if d == 2 and multi and len(set(sides)) == len(sides):
         qs.append(('corners', 'C13 corners %s' % L, (lambda: D.get_shared_corners())))
     if multi and all(p['map'] is None for p in spec['patches']) and d <= 3:
         G = 'G%d' % spec['serial']
